@@ -211,7 +211,9 @@ def main(run, tier):
     run.bounded_check('rt.extract', 'JSON scalars of every class, all 1-2 element arrays/objects over 7 element values (incl. repeated keys), '
                       '8 key spellings, deep nestings, random values of depth <= 3 (seeded) x 5 binding forms x fold_ops off/on', n)
     literal_tables(run, mods, tier)
-    run.floor = 0
+    from . import extractobl
+    extractobl.add(run, tier)
+    run.floor = 100
     run.trust('json.loads as the oracle for "the Python value a JSON parser gives"')
     run.assume('no deductive contract: the extractor is a rule table interpreted by the generic walker; compositionality of '
                'ast.literal_eval / JSON decoding over the escape segmentation is assumed, the per-token tables are exhaustive')
